@@ -152,6 +152,12 @@ theorem fast_slow_partial (b : Bytes) (L : Nat) (hL : L < 10 ^ 9) (hg : noTraili
     rw [hb] at this
     exact this
 
+/-- The line splitter used by the slow-path model is the framework's model of `pars.Line`
+(`Gts.Pars.line`, go-pars v1.1.6 `calculateLineLength`: LF, CRLF, lone CR, end of input). -/
+theorem splitLine_is_pars_line (s : Gts.Pars.PS) :
+    Gts.Pars.line.run' s = (.ok (splitLine s.rest).1, { s with rest := (splitLine s.rest).2 }) :=
+  line_eq_splitLine s
+
 /-- Blocks with CRLF line ends (which the fast path rejects) are read by the slow path exactly
 like the same block with LF line ends: same token, corresponding rest — for every input without
 stray CR and every declared length. -/
